@@ -463,4 +463,20 @@ example : MGHyp exampleSetup2 := by
         have : k = 0 ∨ k = 1 := by omega
         rcases this with rfl | rfl <;> simp [exampleSetup2, exampleSetup] <;> ring
 
+section chainSpec
+variable {K : Type} [Field K] [DecidableEq K]
+
+/-- **The Galerkin chain the driver executes satisfies `MGHyp.gal`.**  The list
+`[As[0], …, As[top]]` built like `As = [A]; for P in reversed(Ps): As.append(P.T·As[-1]·P); As.reverse()`
+has `As[top] = A` and `As[lv] = Ps[lv]ᵀ · As[lv+1] · Ps[lv]` entrywise on the level sizes. -/
+theorem galerkin_chain_spec (size : ℕ → ℕ) (Ps : ℕ → List (List K)) (A : List (List K)) (top : ℕ) :
+    (galerkinChain size Ps A top).getD top [] = A ∧
+    ∀ lv < top, ∀ i < size lv, ∀ j < size lv,
+      matFn ((galerkinChain size Ps A top).getD lv []) i j
+        = galerkinEntry (size (lv + 1)) (matFn ((galerkinChain size Ps A top).getD (lv + 1) []))
+            (matFn (Ps lv)) i j :=
+  ⟨galerkinChain_top size Ps A top, galerkinChain_gal size Ps A top⟩
+
+end chainSpec
+
 end Pyiga.Props.C11
